@@ -198,6 +198,41 @@ def c05_cases(EoN, rng, n, stats):
     return lines, metas
 
 
+def c05_ties(EoN, rng, n, stats):
+    """the tie clause of ic_sisb on the real code: fast_nonMarkov_SIS with a rule table that has a ZERO delay out of an initial node
+    (a neighbour is infected AT tmin: its history restarts there, sim:391) or a zero duration (an initial node recovers at tmin).
+    Rows from the plain run, full data from the full-data run of the same (deterministic) input: summary() of the object merges
+    the rows at tmin (Props/C10esis.v), the plain arrays keep row 0"""
+    lines = []; metas = []
+    for i in range(n):
+        name = SIMS[2 + i % 2]
+        case = gen_case(rng, name, nmin=2)
+        gc = case['gc']; N = len(gc.order)
+        sel = rng.sample(gc.order, rng.randint(1, min(2, N - 1)))
+        u = sel[0]; what = 'none'
+        nb = [v for v in gc.G.neighbors(u) if v not in sel]
+        if nb and i % 3 != 2:
+            v = rng.choice(nb); case['dels'][(u, v)] = [[F(0)] + list(l) for l in case['dels'][(u, v)]]; what = 'zero-delay'
+        else:
+            case['durs'][u] = [F(0)] + list(case['durs'][u]); what = 'zero-duration'
+        tmin = rng.choice([0, 2.5, -3]); tmax = tmin + 2.0
+        kw = {'initial_infecteds': list(sel), 'tmin': tmin, 'tmax': tmax}
+        rp = {'sim': name, 'graph': gc.to_json(), 'i0': [repr(x) for x in sel], 'form': 'list', 'tmin': tmin, 'tmax': tmax, 'full': True, 'tie': what, 'checker': 'ic_sisb',
+              'durs': {repr(x): [str(y) for y in v] for x, v in case['durs'].items()}, 'dels': {repr(x): [[str(y) for y in l] for l in v] for x, v in case['dels'].items()}}
+        try:
+            rows = R.canon_arrays(call_sim(EoN, case, dict(kw, return_full_data=False)))
+            hist, trans = R.canon_full(call_sim(EoN, case, dict(kw, return_full_data=True)), gc, CODE)
+        except Exception as e:
+            metas.append((rp, 'EXC %s: %s' % (type(e).__name__, str(e)[:100]), None)); lines.append(None); continue
+        if malformed(rows, hist, trans):
+            metas.append((rp, 'malformed output', None)); lines.append(None); continue
+        lines.append('ICSIS %d %d %s %s 1 %s %s %s' % (N, len(sel), ' '.join(str(gc.idmap[x]) for x in sel), qt(tmin), qt(tmax), rows_tokens(rows), full_tokens(hist, trans, N)))
+        metas.append((rp, None, rows[:3]))
+        stats['tie_' + what] = stats.get('tie_' + what, 0) + 1
+        if any(h and h[0][1] == 1 for k, h in hist.items() if gc.order[k] not in sel): stats['tie_head_I'] = stats.get('tie_head_I', 0) + 1
+    return lines, metas
+
+
 def c05_rho(EoN, sim, rng, stats):
     """rho / nothing: int(round(N*rho)) (or 1) distinct nodes of the graph are I at tmin and the run starts from them (extracted
     ic_sis_rhob; its count is compared with Python's int(round(N*rho))); rho together with initial_infecteds: EoNError, nothing drawn,
@@ -503,6 +538,8 @@ def part(run, tier, pid, props, per):
         n = 240 if tier == 'quick' else 4000
         l1, m1 = c05_cases(EoN, rng, n, stats)
         j = judge(run, pid, l1, m1, per, 'event-driven-SIS/extracted-checker')
+        lt, mt = c05_ties(EoN, rng, 36 if tier == 'quick' else 600, stats)
+        j += judge(run, pid, lt, mt, per, 'event-driven-SIS/ties-at-tmin')
         l2, m2, bad2 = c05_rho(EoN, sim, rng, stats)
         j += judge(run, pid, l2, m2, per, 'event-driven-SIS/rho')
         seen = set()
